@@ -423,7 +423,7 @@ class Interp(ExprMixin):
 
     # ------------------------------------------------------------------ C coercion
     def default_value(self, t):
-        if t == "double":
+        if t in ("double", "float32"):
             return Fraction(0) if exact() else 0.0
         if t in INT_TYPES or t == "bint":
             return 0
@@ -437,6 +437,20 @@ class Interp(ExprMixin):
         return None
 
     def coerce(self, t, v, explicit=False):
+        if t == "float32":
+            # C float: the double value is rounded to 24 significant bits.  Concrete values are rounded exactly; symbolic ones become an
+            # uninterpreted rounding of the value (equal to it only where that is known), so that code whose result depends on the
+            # lost bits does not pass for exact
+            w = self.coerce("double", v, explicit)
+            if isinstance(w, (Sym,)):
+                return _sym._uf_apply("f32round", w)
+            if isinstance(w, (Fraction, float, int)) and not isinstance(w, bool):
+                f = float(w)
+                if math.isnan(f) or math.isinf(f):
+                    return w
+                r = float(np.float32(f))
+                return (Fraction(repr(r)) if Fraction(r) != Fraction(w) else w) if exact() else r
+            return w
         if t == "double":
             if isinstance(v, Sym):
                 return Sym(_sym.zreal(v)) if v.is_int else v
